@@ -96,6 +96,7 @@ func checkC11(c *Ctx) {
 			ReplayParams: map[string]int{"REPEAT": 200},
 			Bounds:       fmt.Sprintf("%d token definitions, arbitrary iteration order of the TokDefs map in both runs", n)})
 	}
+	jobs = append(jobs, c11WriterJobs()...)
 	jobs = append(jobs, consistentJobs()...)
 	sites, gos, err := mapRangeSites()
 	if err != nil {
@@ -117,7 +118,68 @@ func checkC11(c *Ctx) {
 	if len(gos) > 0 {
 		c.Notes = append(c.Notes, "gocc starts goroutines: scheduling is outside this kernel-level claim")
 	}
+	c.BoundsText = append(c.BoundsText, "parser table writers (GenActionTable, GenGotoTable, GenParser, GenProductionsTable; plain and -zip) on a five-production grammar: template and gob/gzip-encoder input recorded in natural map order and with one execution of a range-over-map statement in another order (every choice on its own path) must be deeply equal")
 	c.BoundsText = append(c.BoundsText, "kernel level only: 2-safety harnesses over functions that iterate maps on the generation path, with every map iteration order symbolic (a fresh permutation index per range statement, <= 4 entries); the run also lists from SSA every range over a map in gocc's packages and which of them a harness executed (evidence keys map_range_sites_*), and every go statement (none = no scheduling nondeterminism)",
 		"outside the claim: byte identity of whole runs; map ranges listed as not vetted (several only feed debug/verbose output); hash-seed effects other than iteration order")
 	c.Assumptions = append(c.Assumptions, "Go's map iteration nondeterminism = an arbitrary permutation of the entries per range statement")
+}
+
+// c11WriterJobs: the parser table writers under "one map range in another order".
+func c11WriterJobs() []Job {
+	pkg := RepoMod + "/internal/parser/gen/golang"
+	t := repoTarget("internal/parser/gen/golang", "golang", "pargen/c11.go")
+	rec := func(argIdx int, fn string) engine.Intrinsic {
+		return func(e *engine.Engine, st *engine.St, args []engine.Value, call *ssa.CallCommon) (engine.Value, bool) {
+			f := e.FindFunc(pkg, fn)
+			if f == nil {
+				panic("harness function " + fn + " not found")
+			}
+			return engine.Pack(e.CallFunc(st, f, []engine.Value{args[argIdx]}, nil)), true
+		}
+	}
+	zero := func(e *engine.Engine, st *engine.St, args []engine.Value, call *ssa.CallCommon) (engine.Value, bool) {
+		res := call.Signature().Results()
+		switch res.Len() {
+		case 0:
+			return nil, true
+		case 1:
+			return e.Zero(res.At(0).Type()), true
+		}
+		return e.Zero(res), true
+	}
+	execRec := func(e *engine.Engine, st *engine.St, args []engine.Value, call *ssa.CallCommon) (engine.Value, bool) {
+		rec(2, "verifRecordExecute")(e, st, args, call)
+		return zero(e, st, args, call)
+	}
+	intr := map[string]engine.Intrinsic{
+		"text/template.New":                      zero,
+		"(*text/template.Template).Parse":        zero,
+		"(*text/template.Template).Execute":      execRec,
+		pkg + ".genEnc":                          rec(0, "verifRecordEnc"),
+		RepoMod + "/internal/io.WriteFile":       zero,
+		RepoMod + "/internal/io.WriteFileString": zero,
+		pkg + ".nbytes": func(e *engine.Engine, st *engine.St, args []engine.Value, call *ssa.CallCommon) (engine.Value, bool) {
+			x, ok := args[0].(*engine.T)
+			if !ok || !x.IsConst() {
+				return e.IntV(1, 64), true
+			}
+			return e.IntV(int64(len(fmt.Sprint(x.Int()))), 64), true
+		},
+	}
+	var jobs []Job
+	for zip := 0; zip <= 1; zip++ {
+		jobs = append(jobs, Job{
+			Name:   fmt.Sprintf("table writers zip=%d", zip),
+			Target: t,
+			Run: SymRun{Harness: "VerifC11TableWriters", Params: map[string]int{"ZIP": zip}, LoopBound: 20000, ConcreteFmt: true, ForkFuncs: []string{"VerifC11TableWriters"}, ForkPkgs: []string{pkg}, Intrinsics: intr,
+				InitPkgs: func(p string) bool {
+					return p == "sort" || p == "unicode" || p == "unicode/utf8" || p == "strconv" || (strings.HasPrefix(p, RepoMod) && !strings.Contains(p, "/gen/") && !strings.HasSuffix(p, "/gen")) || p == pkg
+				}},
+			TimeoutS:       900,
+			ReplayParams:   map[string]int{"REPEAT": 40},
+			RequiredCovers: []string{"end"},
+			Bounds:         fmt.Sprintf("GenActionTable, GenGotoTable, GenParser, GenProductionsTable (zip=%d) on the item sets of a five-production grammar: the data handed to text/template and to the gob/gzip encoder, recorded in natural map order and with ONE execution of any range-over-map statement inside the writers in another order (every order for maps of up to 4 entries, 5 orders for larger ones; every choice of the execution on its own path), must be deeply equal", zip),
+		})
+	}
+	return jobs
 }
